@@ -2,6 +2,7 @@
 //! trust-platform code.  Every sub-command either turns scripts (the environment's half of
 //! a behaviour) into recorded ndjson traces of the real code, or generates scripts.
 mod cycle;
+mod fb;
 mod util;
 
 fn main() {
@@ -11,6 +12,8 @@ fn main() {
     let code = match cmd {
         "cycle-gen" => cycle::gen(rest),
         "cycle-run" => cycle::run(rest),
+        "fb-gen" => fb::gen(rest),
+        "fb-run" => fb::run(rest),
         _ => {
             eprintln!("usage: tpv <sub-command> ...");
             2
